@@ -12,6 +12,7 @@ plus seeded random pairs; the native driver pplv_c12 checks per event
   okinv   : OK() of the result is false
 """
 import collections, hashlib, json, os, re, subprocess
+from . import c12_int
 
 LEVEL = "proof"
 
@@ -203,6 +204,7 @@ def run(ctx):
                        "driver_args": ["--d3", "1" if d3 else "0", "--d12", "1" if d12 else "0"]},
                       found_input=False, record={"site": site_of(ev[2]), "tags": ["model_correspondence"]})
 
+    broken += c12_int.run(ctx)     # intervals over native bounded integers (Int8_Box … Int64_Box) and adjust_boundary
     # ---- search in the MODEL (the repaired switches, i.e. what op_encloses / op_exact are about)
     rc, st_out, err = ctx.run([drv, "--selftest", "--d3", "0", "--d12", "0"], timeout=300)
     st_fail = [l for l in (st_out or "").splitlines() if l.startswith("SELFTEST-FAIL")]
